@@ -19,6 +19,9 @@ def correspondence(ctx):
         for s in all_strings(USER_ALPHA, maxlen - 1, 0):
             cases.append(f'composed|{prof}|prepare|{hexs(s)}')
             cases.append(f'composed|{prof}|enforce|{hexs(s)}')
+    for s_ in long_strings(ctx, USER_ALPHA, (60 if ctx.tier == 'quick' else 3000)):
+        for prof_ in ('um', 'up'):
+            cases.append(f'prof|{prof_}|enforce|f|b|{hexs(s_)}|')
     # every code point at which any table-driven behaviour changes, alone and next to an ASCII letter
     bc = boundary_cps(ctx, None if ctx.tier == 'quick' else 11)
     corr.count('boundary_code_points', len(bc))
